@@ -1,24 +1,35 @@
 #!/venv/bin/python
-"""Collect the result lines printed by tools/run_mutants.py (from the given log files) into mutants/REPORT.md."""
+"""Collect the result lines printed by tools/run_mutants.py (from the given log files, later files win) and the suite verdicts of
+tools/mutant_suite.py (mutants/suite_status.json) into mutants/REPORT.md."""
 import json, re, sys
 from pathlib import Path
 ROOT = Path(__file__).resolve().parent.parent
 rows = {}
+tests = {}
 for fn in sys.argv[1:]:
     for ln in Path(fn).read_text(errors="replace").splitlines():
         m = re.match(r"^(\S+)\s+tests=(PASS|FAIL|None)\b.*?((?:C\d\d:\w+\([\d.]+s\)(?:, )?)+)\s*$", ln)
         if m:
-            rows[m.group(1)] = (m.group(2), m.group(3))
+            rows[m.group(1)] = m.group(3)
+            if m.group(2) != "None":
+                tests[m.group(1)] = m.group(2)
+sp = ROOT / "mutants" / "suite_status.json"
+if sp.exists():
+    for k, v in json.loads(sp.read_text()).items():
+        tests[k] = v.split()[0]
 muts = {m["id"]: m for m in json.loads((ROOT / "mutants" / "mutants.json").read_text())}
-out = ["# Mutant sensitivity report", "", "Produced by `tools/run_mutants.py --tests` on scratch copies of the repository (removed afterwards); quick tier, VERIF_SEED=1.",
-       "`suite` = does the pinned 165-test suite still pass with the mutant applied (a FAIL means the existing tests already catch it; such mutants only show that the check is at least as sensitive).", "",
+out = ["# Mutant sensitivity report", "", "Produced by `tools/run_mutants.py` (checks; quick tier, VERIF_SEED=1) and `tools/mutant_suite.py` (suite) on scratch copies of the repository (removed afterwards).",
+       "`suite` = does the pinned 165-test suite still pass with the mutant applied (a FAIL means the existing tests already catch it; such mutants only show that the check is at least as sensitive).",
+       "`revert_Fn` = the repaired tree with the fix of finding Fn reverted.", "",
        "| mutant | file | suite | checks |", "|---|---|---|---|"]
 for k in sorted(rows):
     m = muts.get(k, {})
     f = m.get("file") or (m.get("edits", [{}])[0].get("file") if m.get("edits") else m.get("patch", ""))
-    out.append(f"| {k} | {f} | {rows[k][0]} | {rows[k][1]} |")
+    out.append(f"| {k} | {f} | {tests.get(k, '?')} | {rows[k]} |")
 missing = sorted(set(muts) - set(rows))
 if missing:
     out += ["", "Not yet run: " + ", ".join(missing)]
+killed = sum(1 for k in rows if "KILLED" in rows[k])
+out += ["", f"{killed} of {len(rows)} mutants are reported by at least one of the checks listed for them; {sum(1 for k in rows if tests.get(k) == 'PASS')} of them leave the pinned suite green."]
 (ROOT / "mutants" / "REPORT.md").write_text("\n".join(out) + "\n")
-print(len(rows), "rows;", len(missing), "missing")
+print(len(rows), "rows;", len(missing), "missing;", killed, "killed")
